@@ -30,6 +30,7 @@ partial def jvOf : Sexp → Option JV
   | .list [.atom "null"] => some .null
   | .list [.atom "b", b] => (Sexp.bool? b).map JV.bool
   | .list [.atom "n", t] => (Sexp.chars? t).map JV.num
+  | .list [.atom "nf"] => some .nonFinite
   | .list [.atom "str", t] => (Sexp.chars? t).map JV.str
   | .list [.atom "o", t] => (Sexp.chars? t).map JV.other
   | .list (.atom "l" :: xs) => (xs.mapM jvOf).map JV.list
